@@ -122,3 +122,78 @@ def _():
     r.set_style(s.StyleProperties.Position, s.PositionType(L(10, U.px), L(20, U.px)))
     d2 = _rt(d)
     if d2.get_px_resolution() != d.get_px_resolution(): return f"pixel resolution 640x480 used by tts:position is re-read as {d2.get_px_resolution()}"
+
+
+# ---- what remains of repaired findings, recorded under narrower ids
+@witness("C05", "fontfamily-empty")
+def _():
+    import ttconv.model as m, ttconv.style_properties as s
+    for fam in ((), ("",)):
+        d, p, sp = _base(); sp.push_child(m.Text(d, "A")); sp.set_style(s.StyleProperties.FontFamily, fam)
+        v = _span(_rt(d)).get_style(s.StyleProperties.FontFamily)
+        if v != fam: return f"tts:fontFamily {fam!r} (valid in the model) is written as an attribute the reader rejects: re-read as {v}"
+
+
+@witness("C05", "textdecoration-no-component")
+def _():
+    import ttconv.model as m, ttconv.style_properties as s
+    d, p, sp = _base(); sp.push_child(m.Text(d, "A"))
+    sp.set_style(s.StyleProperties.TextDecoration, s.TextDecorationType(underline=True))
+    sp.add_animation_step(m.DiscreteAnimationStep(s.StyleProperties.TextDecoration, Fraction(1), Fraction(2), s.TextDecorationType()))
+    n = len(list(_span(_rt(d)).iter_animation_steps()))
+    if n != 1: return f"an animation step that sets tts:textDecoration to the value without any component (no TTML representation) is lost on re-read ({n} steps)"
+
+
+# ---- further shapes of the repaired findings (must pass)
+@witness("C05", "has-px-none")
+def _():
+    import ttconv.model as m, ttconv.style_properties as s
+    d, p, sp = _base(); sp.push_child(m.Text(d, "A"))
+    sp.set_style(s.StyleProperties.TextShadow, s.SpecialValues.none); p.set_style(s.StyleProperties.RubyReserve, s.SpecialValues.none)
+    try:
+        d2 = _rt(d)
+    except AttributeError as e:
+        return f"writing tts:textShadow / tts:rubyReserve none raises AttributeError: {e}"
+    if _span(d2).get_style(s.StyleProperties.TextShadow) is not s.SpecialValues.none: return "tts:textShadow none is not re-read"
+
+
+@witness("C05", "shear-number-forms")
+def _():
+    import ttconv.model as m, ttconv.style_properties as s
+    for v in (Fraction(50, 3), 1e-7, 12.5, -33):
+        d, p, sp = _base(); sp.push_child(m.Text(d, "A")); p.set_style(s.StyleProperties.Shear, v)
+        w = list(list(_rt(d).get_body())[0])[0].get_style(s.StyleProperties.Shear)
+        if w is None or abs(Fraction(w) - Fraction(v)) > abs(Fraction(v)) / 10 ** 5: return f"tts:shear {v!r} is re-read as {w!r}"
+
+
+@witness("C05", "initial-px-scanned")
+def _():
+    import ttconv.model as m, ttconv.style_properties as s
+    L = s.LengthType; U = L.Units
+    d, p, sp = _base(); sp.push_child(m.Text(d, "A")); d.set_px_resolution(m.PixelResolutionType(640, 480))
+    d.put_initial_value(s.StyleProperties.FontSize, L(20, U.px))
+    d2 = _rt(d)
+    if d2.get_px_resolution() != d.get_px_resolution(): return f"pixel resolution 640x480 used by an initial value is re-read as {d2.get_px_resolution()}"
+
+
+@witness("C05", "textdecoration-empty-attribute")
+def _():
+    import io, ttconv.model as m, ttconv.style_properties as s, ttconv.imsc.writer as w
+    d, p, sp = _base(); sp.push_child(m.Text(d, "A")); p.set_style(s.StyleProperties.TextDecoration, s.TextDecorationType(underline=True))
+    sp.set_style(s.StyleProperties.TextDecoration, s.TextDecorationType())
+    buf = io.BytesIO(); w.from_model(d).write(buf, encoding="utf-8")
+    if b'textDecoration=""' in buf.getvalue(): return 'a tts:textDecoration value without any component is written as tts:textDecoration="" (not a TTML value)'
+    import ttconv.isd as I
+    a = [e.get_style(s.StyleProperties.TextDecoration) for r in I.ISD.from_model(d, 0).iter_regions() for e in r.dfs_iterator() if isinstance(e, m.Span)]
+    b = [e.get_style(s.StyleProperties.TextDecoration) for r in I.ISD.from_model(_rt(d), 0).iter_regions() for e in r.dfs_iterator() if isinstance(e, m.Span)]
+    if a != b: return f"computed tts:textDecoration differs after the round trip: {a} vs {b}"
+
+
+@witness("C05", "integer-exponent")
+def _():
+    import ttconv.model as m, ttconv.style_properties as s
+    d, p, sp = _base(); sp.push_child(m.Text(d, "A")); d.set_display_aspect_ratio(Fraction(2000001, 1000000))
+    d.set_px_resolution(m.PixelResolutionType(2000000, 1000000)); sp.set_style(s.StyleProperties.FontSize, s.LengthType(10, s.LengthType.Units.px))
+    d2 = _rt(d)
+    if d2.get_display_aspect_ratio() != d.get_display_aspect_ratio(): return f"display aspect ratio 2000001/1000000 is re-read as {d2.get_display_aspect_ratio()}"
+    if d2.get_px_resolution() != d.get_px_resolution(): return f"pixel resolution 2000000x1000000 is re-read as {d2.get_px_resolution()}"
